@@ -20,12 +20,17 @@ YN(p) == <<p[1], p[3]>>
 \* boundary days of a year: first, 28th.. last day of every month, and the days around the ISO week-year boundary
 Boundary(y) == SetToSortSeq(UNION { { Ord(y, m, d) : d \in { x \in {1, 15, 28, 29, 30, 31} : x <= DaysInMonth(y, m) } } : m \in 1..12 }, <)
 
+\* the day counts whose duration conversions are emitted with year y: 60 consecutive ones, so that the years
+\* 1900..2100 cover 0..12059 without a gap
+DurDays(y) == IF y >= 1900 THEN ((y - 1900) * 60)..((y - 1900) * 60 + 59) ELSE {}
+
 \* the theorems, per year
 RoundTrip(y) == \A a \in DOMAIN IndSeq : \A n \in 1..PeriodsInYear(IndSeq[a], y) : \A s \in DOMAIN Shifts :
                    LET p == <<y, IndSeq[a], n>> q == ShiftPeriod(p, Shifts[s])
                    IN  ValidPeriod(q) /\ ShiftPeriod(q, -Shifts[s]) = p
 YearOk(y) == W53Iff(y) /\ D366Iff(y) /\ IsoWeeksRange(y) /\ RoundTrip(y)
          /\ Ord(y, 12, 31) - Ord(y, 1, 1) + 1 = DaysInYear(y)
+         /\ \A n \in DurDays(y) : DurationRoundTrip(n)
          /\ \A o \in {Ord(y, 1, 1), Ord(y, 2, 28), Ord(y, 3, 1), Ord(y, 12, 31)} :
                Ord(YearOf(o), MonthOf(o), DayOfMonth(o)) = o /\ PeriodStart(PeriodOfDate(o, "W")) <= o /\ o <= PeriodEnd(PeriodOfDate(o, "W"))
 
@@ -48,6 +53,9 @@ EmitYear(y) ==
     /\ \A u \in DOMAIN IndSeq : \A a \in DOMAIN Req.amounts :
           PrintT("@@" \o ToJson([k |-> "dateadd", y |-> y, u |-> IndSeq[u], n |-> Req.amounts[a],
               r |-> [b \in DOMAIN Boundary(y) |-> <<Boundary(y)[b], DateAdd(Boundary(y)[b], Req.amounts[a], IndSeq[u])>>]]))
+    /\ PrintT("@@" \o ToJson([k |-> "dur", y |-> y,
+            r |-> [j \in 1..Cardinality(DurDays(y)) |-> LET n == (y - 1900) * 60 + j - 1
+                                                       IN <<n, DayToYear(n)[1], DayToYear(n)[2], DayToMonth(n)[1], DayToMonth(n)[2]>>]]))
     /\ IF Req.days
        THEN PrintT("@@" \o ToJson([k |-> "days", y |-> y,
                 r |-> [d \in 1..DaysInYear(y) |-> LET o == DaysBeforeYear(y) + d
